@@ -31,6 +31,15 @@ func tier() int {
 	return 1
 }
 
+// features: the registered set, or VERIF_FEATURES=<bitmask> for triage runs.
+func features() int {
+	if s := os.Getenv("VERIF_FEATURES"); s != "" {
+		n, _ := strconv.Atoi(s)
+		return n
+	}
+	return pgen.FRefTypes | pgen.FListComp | pgen.FConflict | pgen.FStructDisj | pgen.FSelectors
+}
+
 func evalFiles(files []string) (cue.Value, error) {
 	ctx := cuecontext.New()
 	if len(files) == 1 {
@@ -96,10 +105,10 @@ func repeatedLabel(src string) bool {
 }
 
 func gen(t *rapid.T) Case {
-	g := &pgen.G{T: t, Tier: tier()}
+	g := &pgen.G{T: t, Tier: tier(), F: features()}
 	w := pgen.GenStructW(t, 2)
 	concrete := rapid.IntRange(0, 3).Draw(t, "concrete") > 0
-	st := g.StructLit(w, nil, concrete, true)
+	st := g.Program(w, concrete)
 	p := pgen.PermStruct(t, st)
 	c := Case{A: st.Body()}
 	nf := 1
